@@ -3,3 +3,7 @@ import TinsModel.Props.C02
 #print axioms Tins.Props.C02.layers_never_overwrite
 #print axioms Tins.Props.C02.serialize_total_and_size_exact_at
 #print axioms Tins.Props.C02.layers_never_overwrite_at
+#print axioms Tins.Props.C02.parsed_packet_serializes
+#print axioms Tins.Props.C02.parsed_packet_layers_never_overwrite
+#print axioms Tins.Props.C02.built_packet_serializes
+#print axioms Tins.Props.C02.built_packet_layers_never_overwrite
